@@ -22,7 +22,8 @@ EXPLANATION = (
     'C05.d: per variation exactly one simulate call, one runned_reps.append, one results.append_all_results, in that '
     'order, iterating directly over get_unpacked_params_list(). C05.e: enumerator and indexer take the axis order '
     'from the same sorted provider (C order), and no other iteration over the unpacked-parameter set leaks set '
-    'order into an order-sensitive sink. Not decided: user predicates, parallel execution, merged values (C06).')
+    'order into an order-sensitive sink. Not decided: user predicates, parallel execution, merged values (C06).'
+    ' General rules also applied here (see DESIGN 10.5): falsy-zero (Optional numeric parameters tested with `is None`, never by truthiness).')
 
 
 def check(ctx: Ctx) -> None:
